@@ -73,7 +73,10 @@ def _singular_points(mech, params):
 
 def _v_strategy(mech, params):
     sing = _singular_points(mech, params)
-    plain = st.floats(-200.0, 200.0, allow_nan=False)
+    # any double in the range, with extra weight on the two ends of the range, where the clipped
+    # exponentials saturate (|v| > 150)
+    plain = st.one_of(st.floats(-200.0, 200.0, allow_nan=False), st.floats(-200.0, 200.0, allow_nan=False),
+                      st.floats(150.0, 200.0, allow_nan=False), st.floats(-200.0, -150.0, allow_nan=False))
     if not sing:
         return st.one_of(plain, st.sampled_from([-200.0, 200.0, 0.0, -100.0, 100.0]))
 
@@ -99,7 +102,7 @@ STATE = st.one_of(
     st.sampled_from([0.0, 1.0, 5e-324, 1e-300, 1.0 - 2.0**-53, 0.5]),
 )
 DT = st.one_of(
-    st.sampled_from([0.025, 1.0, 1e3, 1e-3, 0.1]),
+    st.sampled_from([0.025, 1.0, 1e3, 1e-3, 0.1, 1e-6, 1e-7, 1e-8, 1e-9]),
     st.floats(1e-9, 1e3, allow_nan=False),
     st.floats(-9.0, 3.0).map(lambda e: float(10.0**e)),
 )
